@@ -2,17 +2,14 @@
 Require Import Pearl.Base.Prelude Pearl.Base.LE Pearl.Generated.Consts Pearl.Format.Record Pearl.Blob.Scan
                Pearl.Blob.ScanBasics Pearl.Blob.ScanProofs.
 
-(* THE theorem: for EVERY well-formed blob (any number of records, any key length K, any metadata and data of any size) and EVERY byte length n at which the file may be cut by a crash, the exact outcome of opening the first n bytes (Blob::from_file + index regeneration scan, with or without data validation): a prefix of the records exactly at record boundaries; EBincode (= quarantine) when the cut is inside a record header or the blob header; and, when the cut is inside the meta/data of a record whose header is complete, the record is ACCEPTED iff its data is not read back (validation off, or empty data) -- finding F6 -- else EBincode. *)
+(* THE theorem: for EVERY well-formed blob (any number of records, any key length K, any metadata and data of any size) and EVERY byte length n at which the file may be cut by a crash, the exact outcome of opening the first n bytes (Blob::from_file + index regeneration scan), in BOTH validation modes: a prefix of the records exactly at record boundaries; EBincode when the cut is inside the blob header; and EBincode when the cut is anywhere strictly inside a record -- header, metadata or data alike. EBincode = the blob is moved to the corrupted blobs (quarantine). Before commit 865f94b of the code a record whose header was complete but whose metadata/data was cut was ACCEPTED whenever its data was not read back (validation off, or empty data): finding F6. *)
 Theorem C06_scan_every_prefix :
   forall K rs n v, wf_recs K rs -> (n <= length (blob_bytes rs))%nat ->
   let r := blob_open_scan (firstn n (blob_bytes rs)) K v in
   ((n < 20)%nat /\ r = RFail EBincode)
   \/ (exists j, (j <= length rs)%nat /\ n = boundary rs j /\ r = ROk (firstn j (blob_hdrs rs)))
-  \/ (exists j x, nth_error rs j = Some x /\
-        (boundary rs j + 57 + N.to_nat K <= n)%nat /\ (n < boundary rs (S j))%nat /\
-        r = if torn_ok v x then ROk (firstn (S j) (blob_hdrs rs)) else RFail EBincode)
   \/ (exists j, (j < length rs)%nat /\
-        (boundary rs j < n)%nat /\ (n < boundary rs j + 57 + N.to_nat K)%nat /\ r = RFail EBincode).
+        (boundary rs j < n)%nat /\ (n < boundary rs (S j))%nat /\ r = RFail EBincode).
 Proof. exact scan_prefix_exact. Qed.
 
 (* an untouched blob is served in full *)
@@ -27,11 +24,10 @@ Theorem C06_truncation_never_fails_init :
   dispose (blob_open_scan (firstn n (blob_bytes rs)) K v) <> DInitFails.
 Proof. exact scan_prefix_disposition. Qed.
 
-(* with data validation on and no empty-data record, the blob is served exactly when the cut is at a record boundary *)
+(* in both validation modes, and also with empty-data records, the blob is served exactly when the cut is at a record boundary *)
 Theorem C06_served_iff_boundary :
-  forall K rs n, wf_recs K rs -> (n <= length (blob_bytes rs))%nat ->
-  Forall (fun x => rdata x <> []) rs ->
-  (dispose (blob_open_scan (firstn n (blob_bytes rs)) K true) = DServed <->
+  forall K rs n v, wf_recs K rs -> (n <= length (blob_bytes rs))%nat ->
+  (dispose (blob_open_scan (firstn n (blob_bytes rs)) K v) = DServed <->
    exists j, (j <= length rs)%nat /\ n = boundary rs j).
 Proof. exact scan_prefix_served_iff_boundary. Qed.
 
@@ -39,19 +35,19 @@ Theorem C06_only_version_fails_init :
   forall r : res (list header), dispose r = DInitFails <-> r = RFail EBlobVersion.
 Proof. exact only_version_fails_init. Qed.
 
-(* REFUTATION witnesses (finding F6), by kernel computation: a torn tail record is indexed without data
-   validation, and even WITH validation when its data is empty (every deletion marker) *)
-Theorem C06_torn_record_indexed_refuted :
-  blob_open_scan f6_cut 4 false = ROk (blob_hdrs f6_recs).
-Proof. exact f6_torn_record_indexed. Qed.
-Theorem C06_torn_empty_record_indexed_with_validation_refuted :
+(* computed examples, by kernel computation, on the data that witnessed finding F6: a file cut inside the data of its tail record is rejected (quarantined) with and without data validation; so is a file cut inside the metadata of a record with EMPTY data (every deletion marker), which used to be indexed even with validation *)
+Theorem C06_torn_record_rejected :
+  blob_open_scan f6_cut 4 false = RFail EBincode /\ blob_open_scan f6_cut 4 true = RFail EBincode.
+Proof. exact f6_torn_record_rejected. Qed.
+Theorem C06_torn_empty_record_rejected :
   (length z_cut < length (blob_bytes z_recs))%nat /\
-  blob_open_scan z_cut 4 true = ROk (blob_hdrs z_recs) /\
-  entry_load z_cut (nth 0 (blob_hdrs z_recs) (new_header [] 0 [] [])) = RFail EBincode.
-Proof. exact empty_data_torn_meta_indexed_with_validation. Qed.
+  blob_open_scan z_cut 4 true = RFail EBincode /\ blob_open_scan z_cut 4 false = RFail EBincode.
+Proof. exact empty_data_torn_meta_rejected. Qed.
 
 Print Assumptions C06_scan_every_prefix.
 Print Assumptions C06_scan_complete.
 Print Assumptions C06_truncation_never_fails_init.
 Print Assumptions C06_served_iff_boundary.
 Print Assumptions C06_only_version_fails_init.
+Print Assumptions C06_torn_record_rejected.
+Print Assumptions C06_torn_empty_record_rejected.
